@@ -135,7 +135,9 @@ var (
 	bUsers = []string{"alice", "bob", "carol", "", "a:b", "Alice", "al\xc3\xafce"}
 	bPws   = []string{"123456", "open sesame", "p:w", "", "p\xc3\xa4ss", "x", "hunter2", ":", "a:b:c"}
 	bKinds = []string{"sha", "bc", "by", "apr", "md5", "plain"}
-	bRealm = []string{"Restricted", "example_product", "", "a\"b", "r 1"}
+	bRealm = []string{"Restricted", "example_product", "", "r 1", "caf\xc3\xa9", "tab\there"}
+	// realms that cannot be put into a quoted-string as they are
+	bRealmDirty = []string{"a\"b", "a\\b", "x\r\nX-Injected: 1", "\"", "end\\", "say \"hi\" \\ bye"}
 )
 
 func genBasicRules(r *vh.Rand) (string, [][3]string) {
@@ -171,7 +173,7 @@ func genBasicRules(r *vh.Rand) (string, [][3]string) {
 			matched = true
 			first = ents
 		}
-		rs = append(rs, m+","+hx(bRealm[r.Intn(len(bRealm))])+","+joinList(us, "+"))
+		rs = append(rs, m+","+hx(genRealm(r))+","+joinList(us, "+"))
 	}
 	return joinList(rs, "/"), first
 }
@@ -223,4 +225,11 @@ func genBasic(r *vh.Rand) string {
 		h = r.Pick("Basic ", "Basic ", "Basic ", "basic ", "BASIC ") + cred
 	}
 	return "ba " + p + "|" + rules + "|" + hx(h)
+}
+
+func genRealm(r *vh.Rand) string {
+	if r.Chance(1, 10) {
+		return bRealmDirty[r.Intn(len(bRealmDirty))]
+	}
+	return bRealm[r.Intn(len(bRealm))]
 }
